@@ -144,13 +144,14 @@ def handle : Drv.Handler
     pure (toString (Sip.defaultHash bs))
   -- oracle for a pair: `ka`,`kb` = DefaultHasher hashes of the two objects (through their real `Hash` impl);
   -- implementation outputs cmp(a,b) cmp(b,a) partial_cmp(a,b) partial_cmp(b,a) a==b.
-  -- Laws (C04_hcmp_*): cmp is the order of the keys; partial_cmp = Some(cmp); cmp(b,a) is the reverse; a == b ⇒ Equal.
+  -- Laws (C04_hcmp_*): partial_cmp = Some(cmp); cmp(b,a) is the reverse; a == b ⇒ Equal (+ transitivity: `o-hh-trans`).
+  -- WHICH total order it is (today: the order of the `DefaultHasher` keys `ka`, `kb`, which the model command `hh-cmp`
+  -- still compares exactly) is not part of any property: the oracle does not demand it (harmless change `sem2-2`, DESIGN §12).
   -- (cmp = Equal with a ≠ b is a genuine 64-bit collision: reported by the harness, not a failure.)
   | "o-hh-pair", [ka, kb, cab, cba, pab, pba, eab] => do
-    let ka ← ka.nat?; let kb ← kb.nat?
+    let _ ← ka.nat?; let _ ← kb.nat?
     let cab ← ordOf? cab; let cba ← ordOf? cba; let pab ← ordOf? pab; let pba ← ordOf? pba; let eab ← eab.bool?
     pure (errs [
-      (cab != some (compare ka kb), "cmp-is-not-the-order-of-the-hashes"),
       (cba != cab.map Ordering.swap, "cmp-not-antisymmetric"),
       (pab != cab || pba != cba, "partial-cmp-inconsistent-with-cmp"),
       (eab && cab != some .eq, "equal-but-not-cmp-equal")])
